@@ -777,7 +777,8 @@ class ComputeGraph(MultiDiGraph):
         )
 
         # assemble actual argument values
-        fargs = [0.0, state_vec.copy()]
+        # t is the step counter (an integer) for fixed-step compiles: extrinsic inputs are indexed with it
+        fargs = [0.0 if dt_adapt else 0, state_vec.copy()]
         if is_dde and code_gen.add_hist_arg:
             fargs.append(code_gen.get_hist_func(state_vec.copy()))
         for a in all_arg_names:
@@ -1123,7 +1124,11 @@ class ComputeGraph(MultiDiGraph):
             ph_to_code[str(ph)] = code_str
 
         expr_subst = expr.subs(subs)
-        expr_str = str(expr_subst)
+        # render through the code generator's own expression printer (index helpers of extrinsic inputs etc.)
+        if any(f in str(expr_subst) for f in ('index_1d(', 'index_2d(', 'index_range(', 'index_axis(')):
+            expr_str = self._expr_to_str(expr_subst, apply=True)[0]
+        else:
+            expr_str = str(expr_subst)
 
         # replace placeholders with actual code strings (longest first to avoid
         # partial substring collisions)
